@@ -24,8 +24,8 @@ TABLE = {
     'C10': ('§6 C10', False, 'sorting readers by numeric message ID is permutation-invariant for distinct IDs; the decimal parser is the numeric value', ''),
     'C11': ('§6 C11', True, 'validate accepts iff non-empty, one roID, exactly one roCreate, at most one roDelete (exactly one unless incomplete allowed); every rejection is InvalidMosCollection', 'that python -O does not weaken the checks: differential execution in a -O subprocess'),
     'C12': ('§6 C12', False, 'on well-formed running orders and schema-shaped messages the model never yields a built-in exception; well-formedness is preserved by merges so the statement composes along histories', ''),
-    'C13': ('§6 C13', True, 'on the labelled-tree aliasing model: copies carry fresh labels, mutations of running-order objects cannot change a message, separation is invariant over every history of copy-inserting merges', 'object identity in CPython (id()-disjointness monitor on the real code)'),
-    'C14': ('§6 C14', True, 'envelope invariant preserved by every merge and along histories; token-level serialise/parse round trip; escaping round trips for character data without U+000D', 'character-level XML lexing compared byte for byte with ElementTree; one open known finding (U+000D in character data)'),
+    'C13': ('§6 C13', True, 'on the labelled-tree aliasing model: copies carry fresh labels, mutations of running-order objects cannot change a message, separation is invariant over every history of copy-inserting merges, and under separation the labelled run projects onto the value-level run', 'object identity in CPython (id()-disjointness monitor on the real code)'),
+    'C14': ('§6 C14', True, 'character-level round trip: every tree with valid names and CR-free non-empty character data reads back from its serialisation as exactly itself (model lexer + tree builder); token-level round trip for any tree; escaping round trips; envelope invariant (running-order element count, message ID, at most one completion record) along every history; the running-order ID is kept by messages addressed to it', 'that ElementTree\'s parser reads the serialiser\'s output as the model\'s lexer does, and that str(ro) is byte for byte the model\'s serialisation: compared at every explored state; one open known finding (U+000D in character data, stdlib serialiser)'),
     'C15': ('§6 C15', False, 'on running orders whose stories/items have IDs and whose optional data is numeric/parseable, no accessor of the model raises; stories/items are listed in document order; absent data is None', ''),
     'C16': ('§6 C16', False, 'duration precedence, running-order duration = sum, offsets = prefix sums (unique IDs), start/end derivations, over exact eighths of a second', ''),
     'C17': ('§6 C17', False, 'body = paragraphs and items in document order; script = stripped non-empty non-bracketed paragraphs in order; running-order script/body = concatenation over stories', ''),
